@@ -217,11 +217,9 @@ def energy_traj(chain, st, ctx, mr, case):
         ctx.violation("energy_conservation", "energy_drift", {"E0": E0, "E1": E1, "steps": int(sol.t.size)}, case)
 
 
-def check_arm(chain, st, ctx, bm, mr, case, kind):
-    """Arm configured through the public setters with frames/inertias consistent with the chain."""
-    tm = bm["tm"]
+def configure_arm(arm, chain, pattern, tm, ctx):
+    """(Re-)describe the arm's links through the public setters: frames from the chain, inertias in one of four call patterns."""
     n = chain["n"]
-    S = np.array(chain["S"])
     Ml = [np.array(m) for m in chain["Mlist"]]
     Gl = np.array([np.array(g) for g in chain["Glist"]])
     homes = []
@@ -229,16 +227,8 @@ def check_arm(chain, st, ctx, bm, mr, case, kind):
     for i in range(n):
         Mi = Mi @ Ml[i]
         homes.append(Mi.copy())
-    Mtip = Mi @ Ml[n]
-    q_pts = np.zeros((3, n))
-    for i in range(n):
-        w, v = S[:3, i], S[3:, i]
-        q_pts[:, i] = np.cross(w, v)
-    arm = bm["Arm"](tm(), S.copy(), tm(Mtip.copy()), q_pts.copy(), S[:3, :].copy())
-    arm.setJointProperties(np.full(n, -2 * PI), np.full(n, 2 * PI))
     arm.setOrigins(link_homes_global=[tm(h.copy()) for h in homes])
     masses = np.array([g[3, 3] for g in Gl])
-    pattern = case.get("setter_pattern", 0)
     if pattern == 0:
         arm.setMassProperties(masses, [tm(m.copy()) for m in Ml], Gl.copy())
     elif pattern == 1:      # inertias given in a separate, later call
@@ -251,6 +241,13 @@ def check_arm(chain, st, ctx, bm, mr, case, kind):
         arm.setMassProperties(masses * 2, [tm(m.copy()) for m in Ml], Gl.copy() * 3.0)
         arm.setMassProperties(link_masses=masses, box_spatial_links=Gl.copy())
     ctx.cls("setter_pattern:%d" % pattern)
+
+
+def evaluate_arm(arm, chain, st, ctx, mr, case, kind, stage):
+    n = chain["n"]
+    S = np.array(chain["S"])
+    Ml = [np.array(m) for m in chain["Mlist"]]
+    Gl = np.array([np.array(g) for g in chain["Glist"]])
     q, qd, qdd = (np.array(st[k], dtype=float) for k in ("q", "qd", "qdd"))
     g = np.array(st["g"], dtype=float)
     F = np.array(st["F"], dtype=float)
@@ -263,6 +260,7 @@ def check_arm(chain, st, ctx, bm, mr, case, kind):
         np.asarray(mr.GravityForces(q.copy(), g.copy(), Mlc, list(Gl), Sc), dtype=float)
     fd_ref = np.asarray(mr.ForwardDynamics(q.copy(), qd.copy(), tau_in.copy(), g.copy(), F.copy(), Mlc, list(Gl), Sc), dtype=float)
     cond = float(np.linalg.cond(M_ref))
+    sfx = "" if stage == 0 else "/after_reconfiguration"
 
     def cmp(clause, fn, want, scale, rel=1e-8):
         ctx.clause(clause)
@@ -270,16 +268,16 @@ def check_arm(chain, st, ctx, bm, mr, case, kind):
             got = np.asarray(fn(), dtype=float)
         except Exception as e:
             import traceback
-            ctx.violation(clause, clause + "/raises/" + type(e).__name__, {"exc": traceback.format_exc()[-400:], "kind": kind}, case)
+            ctx.violation(clause, clause + "/raises/" + type(e).__name__ + sfx, {"exc": traceback.format_exc()[-400:], "kind": kind}, case)
             return
         if got.size != np.asarray(want).size:
-            ctx.violation(clause, clause + "/shape", {"got": got.shape, "want": np.asarray(want).shape}, case)
+            ctx.violation(clause, clause + "/shape" + sfx, {"got": got.shape, "want": np.asarray(want).shape}, case)
             return
         got = got.reshape(np.asarray(want).shape)
         e = float(np.linalg.norm(got - want)) / max(1.0, scale)
         ctx.err(clause, e)
         if not (e <= rel):
-            ctx.violation(clause, clause + "/value", {"rel_err": e, "kind": kind}, case)
+            ctx.violation(clause, clause + "/value" + sfx, {"rel_err": e, "kind": kind, "stage": stage}, case)
 
     sc = float(np.linalg.norm(tau_ref)) + float(np.linalg.norm(M_ref)) * float(np.linalg.norm(qdd))
     cmp("arm.inverseDynamics", lambda: arm.inverseDynamics(q.copy(), qd.copy(), qdd.copy(), g.copy(), F.reshape((6, 1)).copy())[0], tau_ref, sc)
@@ -294,6 +292,45 @@ def check_arm(chain, st, ctx, bm, mr, case, kind):
     cmp("arm.forwardDynamics", lambda: arm.forwardDynamics(q.copy(), qd.copy(), tau_in.copy(), g.copy(), F.copy()), fd_ref, scf, 1e-8 * max(1.0, cond / 1e3))
     cmp("arm.forwardDynamicsE", lambda: arm.forwardDynamicsE(q.copy(), qd.copy(), tau_in.copy(), g.copy(), F.reshape((6, 1)).copy())[0], fd_ref, scf,
         1e-8 * max(1.0, cond / 1e3))
+
+
+def check_arm(chain, st, ctx, bm, mr, case, kind):
+    """Arm configured through the public setters with frames/inertias consistent with the chain; then the *same object* is
+    re-described (new link frames and inertias for the same joint screws and tool frame) and evaluated again."""
+    tm = bm["tm"]
+    n = chain["n"]
+    S = np.array(chain["S"])
+    Ml = [np.array(m) for m in chain["Mlist"]]
+    Mtip = np.eye(4)
+    for m in Ml:
+        Mtip = Mtip @ m
+    q_pts = np.zeros((3, n))
+    for i in range(n):
+        w, v = S[:3, i], S[3:, i]
+        q_pts[:, i] = np.cross(w, v)
+    arm = bm["Arm"](tm(), S.copy(), tm(Mtip.copy()), q_pts.copy(), S[:3, :].copy())
+    arm.setJointProperties(np.full(n, -2 * PI), np.full(n, 2 * PI))
+    configure_arm(arm, chain, case.get("setter_pattern", 0), tm, ctx)
+    evaluate_arm(arm, chain, st, ctx, mr, case, kind, 0)
+    for k, rc in enumerate(case.get("reconfigure", [])):
+        ctx.cls("reconfigured")
+        configure_arm(arm, rc["chain"], rc["setter_pattern"], tm, ctx)
+        evaluate_arm(arm, rc["chain"], rc["state"], ctx, mr, case, kind, k + 1)
+
+
+def rechain(rng, chain):
+    """Another description of a chain with the same joint screws and the same tool frame: new link frames, new inertias."""
+    n = chain["n"]
+    c2 = gen_chain(rng, n, chain["physical"])
+    c2["S"] = chain["S"]
+    Mtip = np.eye(4)
+    for m in chain["Mlist"]:
+        Mtip = Mtip @ np.array(m)
+    Mi = np.eye(4)
+    for m in c2["Mlist"][:n]:
+        Mi = Mi @ np.array(m)
+    c2["Mlist"][n] = (se3.inv(Mi) @ Mtip).tolist()
+    return c2
 
 
 def test6r_chain():
@@ -337,6 +374,8 @@ def run_shard(spec, ctx):
             chain, kind = gen_chain(rng), "random"
         st = gen_state(rng, chain["n"])
         case = {"chain": chain, "state": st, "kind": kind, "traj": bool(k < ntraj and chain["physical"]), "setter_pattern": int(rng.integers(4))}
+        case["reconfigure"] = [{"chain": rechain(rng, chain), "setter_pattern": int(rng.integers(4)), "state": gen_state(rng, chain["n"])}
+                               for _ in range(int(rng.choice([0, 1, 1, 2])))]
         if k < ntraj and not chain["physical"]:
             chain = gen_chain(rng, int(rng.integers(1, 5)), True)
             st = gen_state(rng, chain["n"])
